@@ -183,8 +183,21 @@ func Boundary256() [][]byte {
 			out = append(out, b)
 		}
 	}
-	// word-wise comparison classes against L (the shape of ScMinimalVartime and of any limb-wise
-	// compare): every 64-bit word independently below / equal / above the order's word
+	out = append(out, WordClasses()...)
+	// products that stress the Montgomery reduction
+	lm1 := new(big.Int).Sub(L, big.NewInt(1))
+	add(lm1)
+	add(new(big.Int).Rsh(L, 1))
+	add(new(big.Int).Add(new(big.Int).Rsh(L, 1), big.NewInt(1)))
+	add(new(big.Int).Sqrt(L))
+	add(new(big.Int).Add(new(big.Int).Sqrt(L), big.NewInt(1)))
+	return out
+}
+
+// WordClasses returns the 5^4 strings in which every 64-bit word is, independently, 0 / below / equal to / above / maximal
+// relative to the corresponding word of L: the classes of any limb-wise comparison against the group order.
+func WordClasses() [][]byte {
+	var out [][]byte
 	lb := LE(L, 32)
 	var lw [4]uint64
 	for i := 0; i < 4; i++ {
@@ -219,13 +232,6 @@ func Boundary256() [][]byte {
 		}
 		out = append(out, b)
 	}
-	// products that stress the Montgomery reduction
-	lm1 := new(big.Int).Sub(L, big.NewInt(1))
-	add(lm1)
-	add(new(big.Int).Rsh(L, 1))
-	add(new(big.Int).Add(new(big.Int).Rsh(L, 1), big.NewInt(1)))
-	add(new(big.Int).Sqrt(L))
-	add(new(big.Int).Add(new(big.Int).Sqrt(L), big.NewInt(1)))
 	return out
 }
 
